@@ -526,10 +526,12 @@ MOVE_WIDTH = {"point": ({"vmovss", "movss"}, 16), "interval": ({"vmovq", "movq",
 _FP_ARITH = _re.compile(r"v?(add|sub|mul|div|sqrt|rcp|rsqrt|fmadd\w*|fmsub\w*|fnmadd\w*)(ss|ps|sd|pd)")
 
 
-def check_simple_builders(rule, kind, root=None):
+def check_simple_builders(rule, kind, root=None, only=None):
     p = path_of(kind)
     builders = M.load_builders(p, root)
     for name, b in sorted(builders.items()):
+        if only is not None and name not in only:
+            continue
         ins = [x for x in stream(b, builders) if x.label is None]
         if b.helper_calls:
             continue
